@@ -318,8 +318,67 @@ def check(run: Run) -> None:
         from . import c13
         R.share(run, "C04.j", c13, ["C13.c"])
 
+    with run.obligation("C04.n", "K7", "a child tells its parent about a modification ONCE per cycle: every call of notify_child_modified is control-dependent on a NEW record "
+                        "(record_modified(t) returned true), because the parent hook of a dynamic list appends the child to a per-cycle ring and is not idempotent (C05.j) - a "
+                        "second notification of an already linked child rewires the ring and drops the children between it and the tail from the parent's delta; census of "
+                        "the call sites with the confirmed exceptions (KNOWN FINDING F-C04-3: invalidate())"):
+        EXC = {   # function -> reason (confirmed by reading)
+            "notify_child_modified": "the definition: forwards upwards only when the PARENT's own record is new",
+            "notify_parent_modified": "plain forwarding helper of the mutation view; no caller in the tree",
+            "finalize_mapped_child_output": "map_ child output inside the owner's dictionary: the keyed parent hook sets a bit (idempotent); deliberately unconditional, see its comment",
+        }
+        n_calls = 0
+        for rel in t.all_files():
+            if not (rel.startswith("src/hgraph/") or rel.startswith("include/hgraph/")) or "notify_child_modified" not in t.read(rel):
+                continue
+            fi = t.file(rel)
+            for fd in fi.funcs:
+                if fd.body is None or "notify_child_modified (" not in fi.text(fd.body[0], fd.body[1]):
+                    continue
+                if any(o is not fd and o.body is not None and o.body[0] > fd.body[0] and o.body[1] < fd.body[1] and "notify_child_modified (" in fi.text(o.body[0], o.body[1]) for o in fi.funcs):
+                    continue
+                fa = R.parse(run, fd, strict=False)
+                cn = R.aliases_of(fa)
+                for c in R.calls(fa, "notify_child_modified"):
+                    n_calls += 1
+                    run.count(1, "C04.n")
+                    if fd.name in EXC:
+                        continue
+                    # ancestors of the call
+                    chain = []
+                    def find_path(n, path):
+                        if n is c:
+                            chain.extend(path)
+                            return True
+                        for ch in n.children():
+                            if find_path(ch, path + [n]):
+                                return True
+                        return False
+                    find_path(fa.body, [])
+                    ok = False
+                    for a_i, anc in enumerate(chain):
+                        if isinstance(anc, C.If):
+                            ctxt = cn(anc.cond).replace(" ", "")
+                            in_then = a_i + 1 < len(chain) and chain[a_i + 1] is anc.then or any(x is c for x in anc.then.walk())
+                            if in_then and "record_modified(" in ctxt and not ctxt.startswith("!"):
+                                ok = True
+                        if isinstance(anc, C.Block):
+                            nxt = chain[a_i + 1] if a_i + 1 < len(chain) else c
+                            for st in anc.stmts:
+                                if st is nxt or any(x is c for x in st.walk()):
+                                    break
+                                if isinstance(st, C.If) and "record_modified(" in cn(st.cond) and cn(st.cond).replace(" ", "").startswith("!") and \
+                                        any(isinstance(x, (C.Return, C.Throw)) for x in st.then.walk()):
+                                    ok = True
+                    if not ok:
+                        run.finding("C04.n", f"{fd.name}:parent-notified-without-new-record", f"{fd.qual} calls notify_child_modified on a path that does not depend on a NEW "
+                                    "modification record: a child that was already written in this cycle notifies its parent a second time, and the dynamic list's per-cycle ring "
+                                    "is rewired (children between the re-appended entry and the tail vanish from delta_value / modified items)", loc=fa.loc(c))
+        run.sites(n_calls, 8, "notify_child_modified call sites")
+
 
 VARIANTS = [
+    {"id": "n-proxy-notifies-unconditionally", "expect": "C04.n", "edits": [{"file": "src/hgraph/types/time_series/ts_data/proxy.cpp", "find": "        if (tracking_.record_modified(modified_time)) { tracking_.parent.notify_child_modified(modified_time); }", "replace": "        static_cast<void>(tracking_.record_modified(modified_time));\n        tracking_.parent.notify_child_modified(modified_time);"}]},
     {"id": "l-seed-C04-5-revived-slot-not-republished", "expect": "C04.l", "edits": [{"file": "src/hgraph/types/metadata/ts_data_slot_ops.cpp", "find": "                if (slot_removed(result.slot))\n                {\n                    removed_.reset(result.slot);\n                    value_published_.set(result.slot);\n                }\n                else if (child_valid(result.slot))\n                {\n                    value_published_.set(result.slot);\n                    added_.set(result.slot);\n                }\n                (void)key_set_tracking_.record_modified(modified_time);\n                return mutation_result(result.slot, result.constructed);\n            }\n\n            [[nodiscard]] SlotTSDataMutationResult insert_key_move", "replace": "                if (slot_removed(result.slot)) { removed_.reset(result.slot); }\n                else if (child_valid(result.slot))\n                {\n                    value_published_.set(result.slot);\n                    added_.set(result.slot);\n                }\n                (void)key_set_tracking_.record_modified(modified_time);\n                return mutation_result(result.slot, result.constructed);\n            }\n\n            [[nodiscard]] SlotTSDataMutationResult insert_key_move"}]},
     {"id": "l-insert-forgets-keyset-stamp", "expect": "C04.l", "edits": [{"file": "src/hgraph/types/metadata/ts_data_slot_ops.cpp", "find": "                (void)key_set_tracking_.record_modified(modified_time);\n                return mutation_result(result.slot, result.constructed);\n            }\n\n            [[nodiscard]] SlotTSDataMutationResult remove_key", "replace": "                return mutation_result(result.slot, result.constructed);\n            }\n\n            [[nodiscard]] SlotTSDataMutationResult remove_key"}]},
     {"id": "k-clear-reads-bound-after-unbind", "expect": "C04.k", "edits": [{"file": "src/hgraph/types/time_series/ts_output/base_view.cpp", "find": "        const TSOutputHandle previous = forwarding_target();\n        detail::unbind_target_link(data_);\n        if (evaluation_time_ != MIN_DT && previous.bound())\n        {\n            detail::mutable_target_link_storage(data_)->record_target_modified(evaluation_time_);", "replace": "        auto *link = detail::mutable_target_link_storage(data_);\n        link->unbind();\n        if (evaluation_time_ != MIN_DT && link->bound())\n        {\n            link->record_target_modified(evaluation_time_);"}]},
